@@ -884,13 +884,27 @@ pub fn main_c01(tier_name: &str, seed: u64) -> i32 {
         let raw = evaluate(&scn, &rr);
         if !raw.is_empty() {
             println!("block {block}: {} raw disagreement(s); minimising the first of each clause", raw.len());
+            // per clause: minimise disagreements (one per distinct call) until one is found that
+            // is not a listed known finding
             let mut done: BTreeSet<&str> = BTreeSet::new();
+            let mut tried: BTreeMap<&str, u32> = BTreeMap::new();
+            let mut seen_calls: BTreeSet<(&str, usize)> = BTreeSet::new();
             for v in &raw {
-                if !done.insert(v.clause) {
+                if done.contains(v.clause) || !seen_calls.insert((v.clause, v.call)) {
                     continue;
                 }
+                let n = tried.entry(v.clause).or_default();
+                if *n >= 8 {
+                    continue;
+                }
+                *n += 1;
                 let (small, sv) = shrink(&scratch.path, &scn, v);
-                violations.push(to_violation(&small, &sv, seed));
+                let viol = to_violation(&small, &sv, seed);
+                let is_known = known.matches(&viol).is_some();
+                violations.push(viol);
+                if !is_known {
+                    done.insert(v.clause);
+                }
             }
             break;
         }
